@@ -46,7 +46,7 @@ PROPS = {
     "C16": dict(sections=[], res_ops=[], res_kinds=[], pure=True, rule="pure-function cases with non-zero remainder / big operands"),
     "C17": dict(sections=["st.ix.unknown"], res_ops=[], res_kinds=[], shared=False,
                 rule="non-trivial: key / address cases with prefix-related addresses, adjacent timestamps, boundary ids"),
-    "C18": dict(sections=["st.cnt"], res_ops=[], res_kinds=["plan_create", "node_subscribe", "plan_subscribe", "sess_start"],
+    "C18": dict(sections=["st.cnt", "st.alloc", "st.payout"], res_ops=[], res_kinds=["plan_create", "node_subscribe", "plan_subscribe", "sess_start"],
                 rule="non-trivial: a plan, subscription or session was created"),
     "C19": dict(sections=[], res_ops=[], res_kinds=[], shared=False,
                 rule="non-trivial: round-trip cases of generated values (every registered sentinel.* type, binary + JSON + tx + genesis flows) and model cases of the hand-written codecs"),
